@@ -210,4 +210,66 @@ theorem parseReq_frameOf (h : Hdr) (data : List Nat) (hr : h.InRange) :
 theorem encodeIpmbMsg_frameOf (h : Hdr) (data : List Nat) (hr : h.InRange) :
     encodeIpmbMsg h data = .ok (frameOf h data) := encodeIpmbMsg_eq h data hr
 
+/-! ### the reply of the specification's figure -/
+
+theorem mkReply_length (h : Hdr) (body : List Nat) : (mkReply h body).length = body.length + 7 := by
+  simp [mkReply]
+
+theorem mkReply_hdrOk (h : Hdr) (body : List Nat) : hdrOk (mkReply h body) := by
+  simp [mkReply, hdrOk, sum8]; omega
+
+theorem mkReply_payOk (h : Hdr) (body : List Nat) : payOk (mkReply h body) := by
+  have : (mkReply h body).drop 3 =
+      ([h.rsSa, h.seq * 4 + h.rsLun, h.cmd] ++ body) ++
+        [(256 - ([h.rsSa, h.seq * 4 + h.rsLun, h.cmd] ++ body).sum % 256) % 256] := by
+    simp [mkReply]
+  unfold payOk
+  rw [this, ← pyChecksum_eq]
+  exact sum8_append_checksum _
+
+/-- a frame with a bad checksum is rejected whatever request is outstanding -/
+theorem rxFilter_damaged (req : Hdr) (f : List Nat) (fl : Flags) (h6 : 6 ≤ f.length)
+    (hd : ¬ (hdrOk f ∧ payOk f)) : rxFilter req f fl = .ok false := by
+  unfold rxFilter
+  rw [rspNeeds_eq]
+  have h0 : ¬ f.length = 0 := by omega
+  have h1 : ¬ f.length < 6 := by omega
+  simp only [h0, h1, if_false]
+  congr 1
+  rw [Bool.eq_false_iff]
+  intro hall
+  apply hd
+  rw [List.all_eq_true] at hall
+  have c1 := hall ⟨none, (.cksumSlice 0 (some 3)), (.e (.const 0))⟩
+    (by simp [Gen.IpmbFilter.rxChecks, active])
+  have c2 := hall ⟨none, (.cksumSlice 3 none), (.e (.const 0))⟩
+    (by simp [Gen.IpmbFilter.rxChecks, active])
+  simp only [checkHolds, evalTerm, eval, beq_iff_eq,
+    show ∀ l, runChecksum Gen.IpmbFilter.cksum l = pyChecksum l from fun _ => rfl, pyChecksum_zero_iff] at c1 c2
+  exact ⟨by simpa [hdrOk] using c1, by simpa [payOk] using c2⟩
+
+/-- the filter returns a boolean on every frame of at least six bytes -/
+theorem rxFilter_ok (req : Hdr) (f : List Nat) (fl : Flags) (h6 : 6 ≤ f.length) :
+    ∃ b, rxFilter req f fl = .ok b := by
+  unfold rxFilter
+  rw [rspNeeds_eq]
+  have h0 : ¬ f.length = 0 := by omega
+  have h1 : ¬ f.length < 6 := by omega
+  simp only [h0, h1, if_false]
+  exact ⟨_, rfl⟩
+
+/-- … and `false` on everything that is not an intact reply to the request -/
+theorem rxFilter_false (req : Hdr) (f : List Nat) (fl : Flags) (hn : req.netfn % 2 = 0) (h6 : 6 ≤ f.length)
+    (hr : ¬ isReplyTo req f fl) : rxFilter req f fl = .ok false := by
+  obtain ⟨b, hb⟩ := rxFilter_ok req f fl h6
+  cases b with
+  | false => exact hb
+  | true => exact absurd ((rxFilter_true_iff req f fl hn).1 hb) hr
+
+theorem rspNetfn_mkReply (h : Hdr) (body : List Nat) (hq : h.rqLun < 4) : rspNetfn (mkReply h body) = h.netfn + 1 := by
+  simp [mkReply, rspNetfn, byteAt]; omega
+
+theorem rspCmd_mkReply (h : Hdr) (body : List Nat) : rspCmd (mkReply h body) = h.cmd := by
+  simp [mkReply, rspCmd, byteAt]
+
 end PyIpmi.Ipmb
